@@ -318,8 +318,15 @@ def r6_narrowing_scope(ctx):
             f["rule"] = "R-C02-6"
 
 
+def r7_one_index_for_every_variant(ctx):
+    """the single Get(index) a named access compiles to addresses the same field in every variant of a union — shared with R-C01-7"""
+    from rules import c01
+    c01.r7_one_index_for_every_variant(ctx, "R-C02-7")
+
+
 def run(ctx):
-    ctx.run_rules([r1_placeholders_patched, r2_branch_reset, r3_lift_only_sole_term, r4_emitted_stack_discipline, r5_written_order, r6_narrowing_scope])
+    ctx.run_rules([r1_placeholders_patched, r2_branch_reset, r3_lift_only_sole_term, r4_emitted_stack_discipline, r5_written_order, r6_narrowing_scope,
+                   r7_one_index_for_every_variant])
     ctx.note("NOT decided: stack offsets (Pick/Rotate), local-slot alignment (nil fill, Reset), branch ordering, instruction semantics — the values programs compute are out of reach of a static analysis of the compiler's source")
     return (
         "Decides ONE structural necessary condition of C02: every placeholder jump planted by the code generator is pointed at its join on every "
